@@ -85,8 +85,10 @@ static void _GD_ClearDerived(DIRFILE *restrict D, gd_entry_t *restrict E,
       if (E->e->entry[0] == C) {
         if (check)
           _GD_SetError(D, GD_E_DELETE, GD_E_DEL_ALIAS, E->field, 0, C->field);
-        else
+        else {
           E->e->entry[0] = NULL;
+          _GD_InvalidateAliasLists(D, E);
+        }
       }
   }
 
